@@ -438,7 +438,7 @@ def lossless_iter_rule(rep, prog, cfg):
                  "core::option::Option::take", "alloc::vec::Vec::pop", "alloc::vec::Vec::remove", "core::mem::take", "core::mem::replace")
     n_log = 0
     for b in prog.bodies.values():
-        if b.crate != "mpd_client" or b.raw.get("derived"):
+        if b.crate not in ("mpd_client", "mpd_protocol") or b.raw.get("derived"):
             continue
         raw = prog.crates[b.crate]
         # extents of the logging macro invocations this body contains
